@@ -104,6 +104,18 @@ class Target:
             self.fw = Forwarder(self.face, self.kind, ['200'], ctx, rng, S)
         return await asyncio.wait_for(self.app.register(form) if self.kind == 'v2' else self.app.register(form, None), 30)
 
+    async def detach_by_unregister(self, form, S, ctx, rng, answer):
+        """Legacy front-end: unregister(prefix) withdraws the route AND detaches the handler; the scripted forwarder answers the
+        command with 200, an error status, a Nack, rubbish or not at all."""
+        from .c17 import Forwarder
+        if getattr(self, 'fw', None) is None:
+            self.fw = Forwarder(self.face, self.kind, ['200'], ctx, rng, S)
+        self.fw.script = [answer]
+        try:
+            return await asyncio.wait_for(self.app.unregister(form), 30)
+        finally:
+            self.fw.script = ['200']
+
     async def stop(self):
         if self.app is not None:
             self.app.shutdown()
@@ -244,7 +256,13 @@ def run_history(ctx, rng, kind, ops, label):
                 form, fl = form_of(rng, pre)
                 w['form'] = fl
                 try:
-                    T.detach(form)
+                    if kind == 'v1' and len(op) > 2 and pre:
+                        ok = await T.detach_by_unregister(form, S, ctx, rng, op[2])
+                        w['forwarder_answer'] = op[2]
+                        ctx.event('detach-by-unregister')
+                        ctx.event('detach-by-unregister-command-' + ('succeeded' if ok else 'failed'))
+                    else:
+                        T.detach(form)
                     scribble(form)
                     del attached[pre]
                     ctx.event('detach')
@@ -515,14 +533,28 @@ def run(ctx):
             elif k < 0.44 and kind in ('v1', 'v2') and i % 2:
                 ops.append(('register-bare', rng.choice([p for p in PREFIXES if p])))
             elif k < 0.55:
-                ops.append(('detach', rng.choice(pool_p)))
+                if kind == 'v1' and i % 2 and rng.random() < 0.5:
+                    ops.append(('detach', rng.choice(pool_p), rng.choice(['200', '200', '404', 'nack', 'silence', 'garbage', 'bad-signature'])))
+                else:
+                    ops.append(('detach', rng.choice(pool_p)))
             else:
                 ops.append(('interest', rng.choice(pool_n)))
         run_history(ctx, rng, kind, ops, 'random')
+    # legacy front-end: detaching through unregister(), for every kind of forwarder answer, with handlers on a shorter and a longer prefix
+    for rep in range(ctx.n(3, 40)):
+        for answer in ('200', '404', 'nack', 'silence', 'garbage', 'bad-signature', 'no-content'):
+            for others in ((1, 3), (1,), (3,), ()):
+                ops = [('attach', PREFIXES[j]) for j in others + (2,)]
+                rng.shuffle(ops)
+                ops += [('interest', n) for n in (PREFIXES[2], PREFIXES[3], INT_NAMES[7])] + [('detach', PREFIXES[2], answer)]
+                ops += [('interest', n) for n in (PREFIXES[2], PREFIXES[3], PREFIXES[1], INT_NAMES[7], PREFIXES[7])]
+                ops += [('attach', PREFIXES[2]), ('interest', PREFIXES[2]), ('interest', PREFIXES[3])]
+                run_history(ctx, rng, 'v1', ops, 'unregister-template')
     check_reply(ctx, rng)
     for k in ('attach', 'detach', 'duplicate-attach', 'interest-hit', 'interest-miss', 'reply-sent', 'reply-late', 'attach-with-delivery-options',
               'reconnect-with-handlers-attached', 'register-without-handler-on-free-prefix', 'duplicate-route-declaration',
-              'reply-from-blocking-handler', 'interest-parameterised-digest-at-middle'):
+              'reply-from-blocking-handler', 'interest-parameterised-digest-at-middle', 'detach-by-unregister-command-succeeded',
+              'detach-by-unregister-command-failed'):
         ctx.need_event(k)
     ctx.assumptions = ['detaching a never-attached prefix and handler exceptions are outside the statement',
                        'the reply clause is judged on the current front-end (the legacy one has no reply callback)']
